@@ -2,8 +2,9 @@
 (***************************************************************************)
 (* Model of property C11.  A behaviour is the assembly of the Hessian of   *)
 (* one configuration: Init chooses the configuration (cell, mask, N        *)
-(* positions on a half-integer grid, species, masses, potential, shift,    *)
-(* parameter matrices), every AddPair(k) step adds one interacting pair in *)
+(* positions on a half-integer grid, species table of K <= 3 species of    *)
+(* which any non-empty subset occurs, mass map and its enumeration order,  *)
+(* potential, shift, K x K parameter matrices), every AddPair(k) step adds one interacting pair in *)
 (* ANY order; the clauses Symmetric, TranslationNull, EachPairOnce hold in *)
 (* every state (formal block symbols), and the final state (the same for   *)
 (* every order) prints the case: all matrix entries as Real terms.         *)
@@ -58,7 +59,12 @@ NGrid == Len(GridSeq)
 Sizes == IF Quick THEN {3, 4} ELSE {2, 3, 4, 5}
 
 \* ---- species and masses (masses are squares of the rationals below) ----
-TypeSets(N) ==
+\* The species table of the MODEL (parameter matrices, mass map) has K = Len(mroot) entries; a
+\* configuration need not contain all of them.  BaseTypeSets: K <= 2, every species present (except
+\* the one-species entries).  PatternTypeSets: every pattern of present / absent species for K <= 3
+\* that is not in the base sets - the species index of a particle is its label, not its rank among
+\* the labels that happen to occur.
+BaseTypeSets(N) ==
   IF N = 2 THEN
     << [typ |-> <<1, 1>>, mroot |-> << <<3, 2>> >>],
        [typ |-> <<1, 2>>, mroot |-> << <<1, 1>>, <<2, 1>> >>],
@@ -77,30 +83,54 @@ TypeSets(N) ==
        [typ |-> <<1, 2, 1, 2>>, mroot |-> << <<1, 1>>, <<2, 1>> >>],
        [typ |-> <<2, 1, 1, 1>>, mroot |-> << <<3, 1>>, <<2, 1>> >>],
        [typ |-> <<2, 2, 1, 2>>, mroot |-> << <<1, 2>>, <<3, 2>> >>] >>
+Cyc(pat, N) == [i \in 1..N |-> pat[((i - 1) % Len(pat)) + 1]]
+MR2 == << <<3, 1>>, <<1, 2>> >>
+MR3 == << <<1, 1>>, <<2, 1>>, <<3, 2>> >>
+PatternTypeSets(N) ==
+  << [typ |-> Cyc(<<1>>, N),       mroot |-> MR2],     \* K = 2, only species 1
+     [typ |-> Cyc(<<2>>, N),       mroot |-> MR2],     \* K = 2, only species 2
+     [typ |-> Cyc(<<1>>, N),       mroot |-> MR3],     \* K = 3, one species
+     [typ |-> Cyc(<<2>>, N),       mroot |-> MR3],
+     [typ |-> Cyc(<<3>>, N),       mroot |-> MR3],
+     [typ |-> Cyc(<<1, 2>>, N),    mroot |-> MR3],     \* K = 3, two species
+     [typ |-> Cyc(<<3, 1>>, N),    mroot |-> MR3],
+     [typ |-> Cyc(<<2, 3, 3>>, N), mroot |-> MR3],
+     [typ |-> Cyc(<<3, 1, 2>>, N), mroot |-> MR3] >>   \* K = 3, all species (N >= 3)
+NBase(N) == Len(BaseTypeSets(N))
+TypeSets(N) == BaseTypeSets(N) \o PatternTypeSets(N)
 
 \* ---- potentials and parameter matrices (rows/columns = species; symmetric) ----
-M2(a, b, c) == << <<a, b>>, <<b, c>> >>
+\* M3(a, b, c, d, e, f): a = [1][1], b = [1][2], c = [2][2], d = [1][3], e = [2][3], f = [3][3]; a model with K species
+\* uses the leading K x K block
+M3(a, b, c, d, e, f) == << <<a, b, d>>, <<b, c, e>>, <<d, e, f>> >>
+Block(M, K) == [a \in 1..K |-> [b \in 1..K |-> M[a][b]]]
 ParSets ==
   << \* Lennard-Jones, dyadic cut-offs (pairs exactly at the cut-off occur in the dyadic cell)
-     [model |-> "lennard_jones", eps |-> M2(<<1, 1>>, <<3, 2>>, <<1, 2>>),
-      sigma |-> M2(<<1, 1>>, <<5, 4>>, <<3, 2>>), rc |-> M2(<<5, 2>>, <<5, 2>>, <<3, 1>>),
+     [model |-> "lennard_jones", eps |-> M3(<<1, 1>>, <<3, 2>>, <<1, 2>>, <<5, 4>>, <<3, 4>>, <<2, 1>>),
+      sigma |-> M3(<<1, 1>>, <<5, 4>>, <<3, 2>>, <<9, 8>>, <<11, 8>>, <<5, 4>>),
+      rc |-> M3(<<5, 2>>, <<5, 2>>, <<3, 1>>, <<5, 2>>, <<3, 1>>, <<11, 4>>),
       n |-> <<7, 1>>, A |-> <<3, 1>>, alpha |-> <<5, 1>>],
      \* Kob-Andersen-like, cut-off 2.5 sigma
-     [model |-> "lennard_jones", eps |-> M2(<<1, 1>>, <<3, 2>>, <<1, 2>>),
-      sigma |-> M2(<<1, 1>>, <<4, 5>>, <<22, 25>>), rc |-> M2(<<5, 2>>, <<2, 1>>, <<11, 5>>),
+     [model |-> "lennard_jones", eps |-> M3(<<1, 1>>, <<3, 2>>, <<1, 2>>, <<6, 5>>, <<4, 5>>, <<9, 10>>),
+      sigma |-> M3(<<1, 1>>, <<4, 5>>, <<22, 25>>, <<9, 10>>, <<21, 25>>, <<19, 20>>),
+      rc |-> M3(<<5, 2>>, <<2, 1>>, <<11, 5>>, <<9, 4>>, <<21, 10>>, <<19, 8>>),
       n |-> <<7, 1>>, A |-> <<3, 1>>, alpha |-> <<5, 1>>],
-     [model |-> "inverse_power_law", eps |-> M2(<<1, 1>>, <<1, 1>>, <<1, 1>>),
-      sigma |-> M2(<<1, 1>>, <<59, 50>>, <<7, 5>>), rc |-> M2(<<5, 2>>, <<2, 1>>, <<3, 1>>),
+     [model |-> "inverse_power_law", eps |-> M3(<<1, 1>>, <<1, 1>>, <<1, 1>>, <<1, 1>>, <<1, 1>>, <<1, 1>>),
+      sigma |-> M3(<<1, 1>>, <<59, 50>>, <<7, 5>>, <<11, 10>>, <<13, 10>>, <<6, 5>>),
+      rc |-> M3(<<5, 2>>, <<2, 1>>, <<3, 1>>, <<11, 5>>, <<13, 5>>, <<12, 5>>),
       n |-> <<10, 1>>, A |-> <<1, 1>>, alpha |-> <<5, 1>>],
-     [model |-> "inverse_power_law", eps |-> M2(<<2, 1>>, <<1, 2>>, <<5, 4>>),
-      sigma |-> M2(<<1, 1>>, <<6, 5>>, <<3, 2>>), rc |-> M2(<<37, 20>>, <<9, 4>>, <<27, 10>>),
+     [model |-> "inverse_power_law", eps |-> M3(<<2, 1>>, <<1, 2>>, <<5, 4>>, <<3, 2>>, <<3, 4>>, <<1, 1>>),
+      sigma |-> M3(<<1, 1>>, <<6, 5>>, <<3, 2>>, <<11, 10>>, <<13, 10>>, <<7, 5>>),
+      rc |-> M3(<<37, 20>>, <<9, 4>>, <<27, 10>>, <<2, 1>>, <<12, 5>>, <<5, 2>>),
       n |-> <<5, 2>>, A |-> <<2, 3>>, alpha |-> <<5, 1>>],
      \* harmonic / Hertz: the cut-off is sigma
-     [model |-> "harmonic_hertz", eps |-> M2(<<1, 1>>, <<3, 2>>, <<2, 1>>),
-      sigma |-> M2(<<3, 2>>, <<2, 1>>, <<5, 2>>), rc |-> M2(<<3, 2>>, <<2, 1>>, <<5, 2>>),
+     [model |-> "harmonic_hertz", eps |-> M3(<<1, 1>>, <<3, 2>>, <<2, 1>>, <<5, 4>>, <<7, 4>>, <<1, 2>>),
+      sigma |-> M3(<<3, 2>>, <<2, 1>>, <<5, 2>>, <<7, 4>>, <<9, 4>>, <<3, 1>>),
+      rc |-> M3(<<3, 2>>, <<2, 1>>, <<5, 2>>, <<7, 4>>, <<9, 4>>, <<3, 1>>),
       n |-> <<7, 1>>, A |-> <<3, 1>>, alpha |-> <<2, 1>>],
-     [model |-> "harmonic_hertz", eps |-> M2(<<1, 1>>, <<1, 2>>, <<3, 1>>),
-      sigma |-> M2(<<8, 5>>, <<23, 10>>, <<27, 10>>), rc |-> M2(<<8, 5>>, <<23, 10>>, <<27, 10>>),
+     [model |-> "harmonic_hertz", eps |-> M3(<<1, 1>>, <<1, 2>>, <<3, 1>>, <<2, 1>>, <<3, 2>>, <<5, 4>>),
+      sigma |-> M3(<<8, 5>>, <<23, 10>>, <<27, 10>>, <<19, 10>>, <<5, 2>>, <<11, 5>>),
+      rc |-> M3(<<8, 5>>, <<23, 10>>, <<27, 10>>, <<19, 10>>, <<5, 2>>, <<11, 5>>),
       n |-> <<7, 1>>, A |-> <<3, 1>>, alpha |-> <<5, 2>>] >>
 
 Masks == SetToSeq({m \in [1..DIM -> {0, 1}] : TRUE})
@@ -115,6 +145,19 @@ HashC(cb) == Mix(Mix(Mix(Mix(Mix(Mix(Mix(SEED + 1, cb.N), cb.c), cb.m), cb.t), c
 LeadC(cb) == cb.c = 1 /\ Masks[cb.m] = AllOnes /\ cb.t = 1 /\ cb.p = 1 /\ cb.s = 1
 SentC(cb) == cb.c = 1 /\ Masks[cb.m] = AllOnes /\ ((cb.N = 3 /\ cb.t = 2) \/ LeadC(cb))
 Sentinel(ix) == ix.g = 1 /\ SentC(ix)
+\* every present/absent pattern occurs in every run: N = 3, dyadic cell, fully periodic, the second designed
+\* geometry (three pairs within 2.2, none exactly at a cut-off), potential and shift picked by a hash
+HashT(cb) == Mix(Mix(Mix(SEED + 5, cb.N), cb.t), DIM)
+PatSentC(cb) == /\ cb.N = 3 /\ cb.c = 1 /\ Masks[cb.m] = AllOnes /\ cb.t > NBase(cb.N)
+                /\ cb.p = 1 + (HashT(cb) % Len(ParSets)) /\ cb.s = 1 + ((HashT(cb) \div 8) % 2)
+\* the pattern type sets are sampled more thinly than the base ones
+SModOf(cb) == IF cb.t > NBase(cb.N) THEN 4 * SMOD ELSE SMOD
+\* ---- the mass map is a function species -> mass; a Python dict also has an enumeration (insertion) order:
+\* every order denotes the same map.  The order of a case is picked by the hash.
+Perms(K) == IF K = 1 THEN << <<1>> >>
+            ELSE IF K = 2 THEN << <<1, 2>>, <<2, 1>> >>
+            ELSE << <<1, 2, 3>>, <<3, 2, 1>>, <<2, 3, 1>>, <<3, 1, 2>>, <<2, 1, 3>>, <<1, 3, 2>> >>
+MOrder(K, h) == Perms(K)[1 + (h % Len(Perms(K)))]
 
 \* geometry number g of size N: designed ones first, then the grid tuples
 NDesigned(N) == Len(Designed(N))
@@ -133,15 +176,18 @@ PosOf(N, g) ==
        <<P1>> \o [t \in 1..(N - 1) |-> GridSeq[ids[t]]]
 GeomsFor(cb) ==
   (IF SentC(cb) THEN {1} ELSE {})
-  \cup (IF HashC(cb) % SMOD = 0 THEN {1 + (Mix(HashC(cb), r) % NGeoms(cb.N)) : r \in 1..REP} ELSE {})
+  \cup (IF PatSentC(cb) THEN {2} ELSE {})
+  \cup (IF HashC(cb) % SModOf(cb) = 0 THEN {1 + (Mix(HashC(cb), r) % NGeoms(cb.N)) : r \in 1..REP} ELSE {})
 
 CfgOf(ix) ==
   LET ps == ParSets[ix.p]
       ts == TypeSets(ix.N)[ix.t]
+      K  == Len(ts.mroot)
   IN  [ dim |-> DIM, S |-> SS, H |-> Cells[ix.c].H, dyadic |-> Cells[ix.c].dyadic, ppp |-> Masks[ix.m],
         pos |-> PosOf(ix.N, ix.g), typ |-> ts.typ, mroot |-> ts.mroot,
-        model |-> ps.model, shift |-> (ix.s = 1), eps |-> ps.eps, sigma |-> ps.sigma, rc |-> ps.rc,
-        n |-> ps.n, A |-> ps.A, alpha |-> ps.alpha, ix |-> ix ]
+        morder |-> MOrder(K, Mix(HashC(ix), 17 + ix.g)),
+        model |-> ps.model, shift |-> (ix.s = 1), eps |-> Block(ps.eps, K), sigma |-> Block(ps.sigma, K),
+        rc |-> Block(ps.rc, K), n |-> ps.n, A |-> ps.A, alpha |-> ps.alpha, ix |-> ix ]
 
 ComboSpace ==
   UNION { [N : {N}, c : 1..Len(Cells), m : 1..Len(Masks), t : 1..Len(TypeSets(N)),
@@ -179,14 +225,17 @@ InvFinalAll    == (Final /\ ~Skipped) => done = Interacting(geo)
 InvScope       == /\ \A a, b \in 1..Len(cfg.mroot) :
                        /\ cfg.eps[a][b] = cfg.eps[b][a] /\ cfg.sigma[a][b] = cfg.sigma[b][a] /\ cfg.rc[a][b] = cfg.rc[b][a]
                        /\ (cfg.model = "harmonic_hertz" => cfg.rc[a][b] = cfg.sigma[a][b])
-                  /\ \A i \in 1..NPart(cfg) : cfg.typ[i] \in 1..Len(cfg.mroot)
+                  /\ SpeciesOK(cfg)
+                  /\ Len(cfg.eps) = NSpecies(cfg) /\ Len(cfg.sigma) = NSpecies(cfg) /\ Len(cfg.rc) = NSpecies(cfg)
+                  /\ IsEnumeration(cfg.morder, NSpecies(cfg))
                   /\ RLt(<<1, 1>>, cfg.alpha)
 
 \* ---- emission (direction A): the final state of every behaviour ----
 PairView(pr) == [i |-> pr.i, j |-> pr.j, d |-> pr.d, n2 |-> pr.n2, inter |-> pr.inter, edge |-> pr.edge]
 Common ==
   [ dim |-> cfg.dim, S |-> cfg.S, H |-> cfg.H, dyadic |-> cfg.dyadic, ppp |-> cfg.ppp, pos |-> cfg.pos,
-    typ |-> cfg.typ, mroot |-> cfg.mroot, model |-> cfg.model, shift |-> cfg.shift,
+    typ |-> cfg.typ, mroot |-> cfg.mroot, morder |-> cfg.morder, present |-> SortedSeq(Present(cfg)),
+    model |-> cfg.model, shift |-> cfg.shift,
     eps |-> cfg.eps, sigma |-> cfg.sigma, rc |-> cfg.rc, n |-> cfg.n, A |-> cfg.A, alpha |-> cfg.alpha,
     ix |-> cfg.ix, sentinel |-> Sentinel(cfg.ix) ]
 \* A HessianMatrix object holds the configuration and the parameter matrices; the potential and its scalar
